@@ -134,6 +134,9 @@ func (c *Conn) CloseNow() (err error) {
 	defer errd.Wrap(&err, "failed to immediately close WebSocket")
 
 	if !c.casClosing() {
+		// A close handshake may still be in progress, started by Close or by CloseRead
+		// on a data message. Do not wait for its timeouts.
+		c.closeTransport()
 		err = c.waitGoroutines()
 		if err != nil {
 			return err
